@@ -16,7 +16,7 @@ func init() {
 	}, c16)
 	reg("C17", Meta{
 		Technique:   "provenance + must-guard on SSA (bit index only from a membership-checked lookup), exhaustiveness over the per-file tables and persisted key prefixes reachable from DelFile (including reflect-dispatched method values)",
-		Explanation: "C17 (availability records never overclaim), structural clauses: (P1) the bit index given to BitVector.Set/Get for a chunk of a file comes from getCidSort and is used only behind its membership flag, and getCidSort reports membership only on the comma-ok-true edge of the lookup in the file's data-chunk table; (H1) DelFile reaches — through direct calls and through the method values it hands to the serialising dispatcher chunkPutChanUpdate — a delete for every per-file in-memory table (neighbour presence and overlays, discover presence, source presence, pyramid hashData, queues, pending finders) and a store Delete for every persisted key prefix that the package writes with generateKey. Not decided: 'fully downloaded iff all chunks stored' (value semantics of the bit vector, see C39).",
+		Explanation: "C17 (availability records never overclaim), structural clauses: (P1) the bit index given to BitVector.Set/Get for a chunk of a file comes from getCidSort and is used only behind its membership flag, and getCidSort reports membership only on the comma-ok-true edge of the lookup in the file's data-chunk table; (H1) DelFile reaches — through direct calls and through the method values it hands to the serialising dispatcher chunkPutChanUpdate — a delete for every per-file in-memory table (neighbour presence and overlays, discover presence, source presence, pyramid hashData, queues, pending finders) and a store Delete for every persisted key prefix that the package writes with generateKey; (H2) the iteration callbacks that delete those persisted records never ask the iterator to stop without an error (the sweep covers every matching key). Not decided: 'fully downloaded iff all chunks stored' (value semantics of the bit vector, see C39).",
 		Assumptions: []string{"chunkPutChanUpdate invokes the method value it is given (reflect dispatch modelled by hand)"},
 	}, c17)
 }
@@ -363,7 +363,7 @@ func c17(r *core.Run) {
 		r.Eval(core.EdgeCount(f))
 	}
 	sort.Strings(rnames)
-	r.Floor("C17.H1", "functions reachable from DelFile (incl. dispatched method values)", len(rnames), 8)
+	r.Floor("C17.H1", "functions reachable from DelFile (incl. dispatched method values)", len(rnames), 4)
 	tables := []struct{ structName, field string }{
 		{ciPkg + ".chunkInfoTabNeighbor", "presence"},
 		{ciPkg + ".chunkInfoTabNeighbor", "overlays"},
@@ -392,6 +392,36 @@ func c17(r *core.Run) {
 		r.Check("C17.H1", "C17.H1@"+ciPkg+".(*ChunkInfo).DelFile#clears "+strings.TrimPrefix(t.structName, ciPkg+".")+"."+t.field, del.Pos(), cleared,
 			"deleting a file removes its entry from "+t.structName+"."+t.field, "nothing reachable from DelFile deletes from "+t.structName+"."+t.field+": a record for the deleted file remains in memory")
 	}
+	// H2: the prefix sweeps delete EVERY matching key: an iteration callback reachable from
+	// DelFile that deletes store keys asks the iterator to stop only together with an error
+	nSweep := 0
+	for f := range reach {
+		if f.Parent() == nil || len(core.Calls(f, "(pkg/storage.StateStorer).Delete")) == 0 {
+			continue
+		}
+		res := f.Signature.Results()
+		if res.Len() != 2 || res.At(0).Type().String() != "bool" || res.At(1).Type().String() != "error" {
+			continue
+		}
+		nSweep++
+		okStop := true
+		var badPos = f.Pos()
+		core.EachInstr(f, func(_ *ssa.BasicBlock, _ int, in ssa.Instruction) {
+			ret, isRet := in.(*ssa.Return)
+			if !isRet || len(ret.Results) != 2 {
+				return
+			}
+			stop, isC := core.ConstBool(core.Forward(ret.Results[0]))
+			if (!isC || stop) && core.IsNilConst(core.Forward(ret.Results[1])) {
+				okStop, badPos = false, ret.Pos()
+			}
+		})
+		r.Saw(core.FuncName(f))
+		r.Check("C17.H2", lsKey("C17.H2", f, "sweep does not stop early"), badPos, okStop,
+			"the callback that deletes a file's persisted records never stops the iteration without an error", "the deleting callback can return stop=true with a nil error: only the first matching record is deleted and the file's other persisted records survive DelFile")
+	}
+	r.Floor("C17.H2", "store-deleting iteration callbacks reachable from DelFile", nSweep, 2)
+
 	// persisted prefixes: globals passed to generateKey in a Put key
 	prefixes := map[*ssa.Global]bool{}
 	for _, fn := range w.PkgFuncs(ciPkg) {
